@@ -798,6 +798,17 @@ func firstLine(t string) string {
 	return t
 }
 
+// openFailedBetween reports whether a plugin refused to open between the two events (a Start that fails because of it says
+// nothing about the previous run).
+func openFailedBetween(evs []verifkit.Event, from, to int) bool {
+	for _, e := range evs {
+		if e.Seq > from && e.Seq < to && e.Kind == "openfail" {
+			return true
+		}
+	}
+	return false
+}
+
 // applyKind returns the kind ("conn", "proc", ...) of the n-th (1-based) apply of the scenario.
 func applyKind(specs []string, n int) string {
 	if n < 1 || n > len(specs) {
@@ -960,7 +971,7 @@ func (a *analysis) checkControl(x *verifkit.Exec) {
 					// whatever the status says
 					a.bad("C11/start-refused-although-nothing-runs", "Start was refused (%s) and the pipeline is reported Running although the last run has ended (connectors closed at event #%d, last status write attempt at event #%d) and nothing runs (event #%d)", res[0], lastTeardownSeq, lastStatusAttemptSeq, e.Seq)
 				}
-				if res[0] != "nil" && !liveRun && memStatus != "Running" && memStatus != "Recovering" && a.healthy && !strings.Contains(res[0], "verif:") &&
+				if res[0] != "nil" && !liveRun && memStatus != "Running" && memStatus != "Recovering" && a.healthy && !strings.Contains(res[0], "verif:") && !openFailedBetween(a.evs, callSeq[e.Idx], e.Seq) &&
 					!liveAtCall && statusAtCall != "Running" && statusAtCall != "Recovering" {
 					key := "C11/start-refused-after-run-ended"
 					if strings.Contains(res[0], "processor already running") && failedBuildSeen {
@@ -1166,7 +1177,11 @@ func (a *analysis) checkReconf(x *verifkit.Exec) {
 		gen  int
 	}{{"A", 1}, {"B", 2}} {
 		retSeq, okLater, cancelled := -1, false, false
+		callSeq := -1
 		for _, e := range a.evs {
+			if e.Comp == "ctl" && e.Kind == "call" && e.Arg == "reconf"+req.name && callSeq < 0 {
+				callSeq = e.Seq
+			}
 			switch {
 			case e.Comp == "ctl" && e.Kind == "call" && strings.HasPrefix(e.Arg, "cancel"+req.name):
 				if retSeq < 0 {
@@ -1179,7 +1194,9 @@ func (a *analysis) checkReconf(x *verifkit.Exec) {
 					retSeq = e.Seq
 				}
 			case strings.HasPrefix(e.Comp, "proc:") && e.Kind == "in" && retSeq >= 0 && !okLater && !cancelled && len(a.p.Apply) == 0 && singleRequest == 1:
-				if genNum(e.Arg) == req.gen && !restartedBefore(a.evs, retSeq, e.Seq) {
+				// (a run that was (re)started after the request was issued built its processor from what the request had
+				// already stored: that is a restart, not the live reconfigure taking effect)
+				if genNum(e.Arg) == req.gen && !restartedBefore(a.evs, callSeq, e.Seq) {
 					a.bad("C13/failed-reconfigure-took-effect", "the reconfigure request %s returned an error (event #%d) and was not cancelled by its caller, but record %d was then processed by its configuration g%d (event #%d): the caller was told the old configuration keeps running", req.name, retSeq, e.Idx, req.gen, e.Seq)
 					retSeq = -2
 				}
